@@ -176,8 +176,8 @@ int main(int argc, char **argv) {
       pdu = coap_pdu_init((coap_pdu_type_t)v1, (coap_pdu_code_t)v2, (coap_mid_t)v3, v4);
       fprintf(out, "{\"e\":\"New\",\"ty\":%lu,\"code\":%lu,\"mid\":%lu,\"max\":%lu,\"ret\":%d}\n", v1, v2, v3, v4, pdu != NULL);
       if (!pdu) active = 0;
-    } else if (!pdu) {
-      continue;
+    } else if (!pdu && strcmp(a, "hex") && strcmp(a, "rand")) {
+      continue;                 /* (literal and random inputs need no message under construction) */
     } else if (!strcmp(a, "tok") || !strcmp(a, "utok") || !strcmp(a, "data")) {
       long ret;
       sscanf(line, "%*s %lu %lu", &v1, &v2);
